@@ -61,9 +61,16 @@ impl SubscriptionManager {
             state.create_subscription(info, topic.clone(), self.push_registry.clone(), delegate)?
         };
 
-        topic
-            .attach_subscription(subscription.clone())
+        // Attach in a task of its own: the subscription is already stored, so a caller
+        // that goes away at this point must not leave it detached from its topic.
+        let attach = tokio::spawn({
+            let topic = Arc::clone(&topic);
+            let subscription = Arc::clone(&subscription);
+            async move { topic.attach_subscription(subscription).await }
+        });
+        attach
             .await
+            .unwrap_or(Err(AttachSubscriptionError::Closed))
             .map_err(|e| match e {
                 AttachSubscriptionError::Closed => CreateSubscriptionError::Closed,
             })?;
